@@ -37,6 +37,11 @@ pub fn stream_len(rng: &mut Rng) -> usize {
 }
 
 pub fn jump_target(rng: &mut Rng, f: Family) -> u64 {
+    // every carry position of the counter, not only the word boundary: 2^k - d (vector lanes, half-words, bytes)
+    if rng.chance(1, 6) {
+        let k = rng.range(1, f.counter_bits() as u64 - 1);
+        return (1u64 << k).wrapping_sub(rng.below(3));
+    }
     if f.counter_bits() == 32 {
         match rng.below(8) {
             0 => 0,
